@@ -2,6 +2,7 @@ import Parmcb.Model.Forest
 import Parmcb.Model.Fvs
 import Parmcb.Model.DePina
 import Parmcb.Model.Signed
+import Parmcb.Model.Spanner
 import Parmcb.Driver.Proto
 /-! correspondence handlers for the graph algorithms (C16, C13, C01/C02 …) -/
 namespace Parmcb.Driver
@@ -90,10 +91,35 @@ def parseCycles (rest : List (List String)) : Option (List (List Nat)) :=
     | k :: es => if es.length == k then some es else none
     | [] => none
 
-/-- C01/C02 trace validation: the implementation's cycles are replayed through the literal support
-bookkeeping; every phase must satisfy the executable part of `PhaseOK` against the model's support
-vector, with the per-phase optimum from `minOddWeight` (and from the definitional `minOddBrute` when
-the graph is small enough). -/
+/-- trace validation of one exact run in ForestIndex coordinates: every phase must satisfy the executable
+part of `PhaseOK` against the model's support vector; per-phase optimum from `minOddWeight` (and from the
+definitional `minOddBrute` when the graph is small enough).  Returns total weight and branch statistics. -/
+def validateRun (id : String) (gI : Graph) (v : Variant) (dim : Nat) (cycI : List (List Nat)) :
+    Except String (Int × Nat × Nat × Bool) := do
+  let sups := phaseSupports v 0 (unitSupports dim) cycI
+  let brute := decide (gI.m ≤ 11)
+  let mut total : Int := 0
+  let mut k := 0
+  let mut branchAll := 0
+  let mut branchHidden := 0
+  for (cyc, S) in cycI.zip sups do
+    if !(evenSetB gI cyc) then throw s!"viol {id} phase {k} not-in-cycle-space"
+    if !(dotPar cyc S) then throw s!"diff {id} phase {k} even-against-model-support S=[{showNats S}] C=[{showNats cyc}]"
+    let w := wt gI cyc
+    match minOddWeight gI S with
+    | none => throw s!"diff {id} phase {k} model-finds-no-odd-cycle"
+    | some mu =>
+      if w != mu then throw s!"viol {id} phase {k} not-minimum weight={w} optimum={mu} S=[{showNats S}]"
+    if brute then
+      match minOddBrute gI S with
+      | some mu => if w != mu then throw s!"viol {id} phase {k} not-minimum-brute weight={w} optimum={mu}"
+      | none => throw s!"diff {id} phase {k} brute-none"
+    if S.length ≥ gI.n then branchAll := branchAll + 1 else branchHidden := branchHidden + 1
+    total := total + w
+    k := k + 1
+  return (total, branchAll, branchHidden, brute)
+
+/-- C01/C02: the implementation's cycles are replayed through the literal support bookkeeping -/
 def handleExact (c : Case) : String := Id.run do
   match parseGraph c.body with
   | none => return s!"diff {c.id} parse-graph"
@@ -103,36 +129,106 @@ def handleExact (c : Case) : String := Id.run do
     | some v, some index, some [dim], some cycles, some (retS :: _) =>
       let some ret := retS.toInt? | return s!"diff {c.id} parse-ret"
       if index.length != g.m then return s!"diff {c.id} index-length"
-      -- coordinates: forest-index numbering
       let rev := (List.range g.m).map (fun i => indexOfNat index i)
       let gI : Graph := { n := g.n, edges := rev.map (fun e => g.edges.getD e (0, 0, 0)) }
       if cycles.length != dim then return s!"viol {c.id} count emitted={cycles.length} dim={dim}"
       let cycI := cycles.map (fun cyc => setOf (cyc.map (fun e => index.getD e 0)))
-      -- duplicates inside an emitted cycle
       if (cycles.zip cycI).any (fun (a, b) => a.length != b.length) then return s!"viol {c.id} repeated-edge-in-cycle"
-      let sups := phaseSupports v 0 (unitSupports dim) cycI
-      let brute := g.m ≤ 11
-      let mut total : Int := 0
-      let mut k := 0
-      let mut branchAll := 0
-      let mut branchHidden := 0
-      for (cyc, S) in cycI.zip sups do
-        if !(evenSetB gI cyc) then return s!"viol {c.id} phase {k} not-in-cycle-space"
-        if !(dotPar cyc S) then return s!"diff {c.id} phase {k} even-against-model-support S=[{showNats S}] C=[{showNats cyc}]"
-        let w := wt gI cyc
-        match minOddWeight gI S with
-        | none => return s!"diff {c.id} phase {k} model-finds-no-odd-cycle"
-        | some mu =>
-          if w != mu then return s!"viol {c.id} phase {k} not-minimum weight={w} optimum={mu} S=[{showNats S}]"
-        if brute then
-          match minOddBrute gI S with
-          | some mu => if w != mu then return s!"viol {c.id} phase {k} not-minimum-brute weight={w} optimum={mu}"
-          | none => return s!"diff {c.id} phase {k} brute-none"
-        if S.length ≥ g.n then branchAll := branchAll + 1 else branchHidden := branchHidden + 1
-        total := total + w
-        k := k + 1
-      if total != ret then return s!"viol {c.id} ret returned={ret} emitted-weight={total}"
-      return s!"ok {c.id} {g.n} {g.m} {dim} {total} {branchAll} {branchHidden} {if brute then 1 else 0}"
+      match validateRun c.id gI v dim cycI with
+      | .error e => return e
+      | .ok (total, bA, bH, brute) =>
+        if total != ret then return s!"viol {c.id} ret returned={ret} emitted-weight={total}"
+        return s!"ok {c.id} {g.n} {g.m} {dim} {total} {bA} {bH} {if brute then 1 else 0}"
     | _, _, _, _, _ => return s!"diff {c.id} parse-exact-lines"
+
+/-- C15: literal replay of the spanner construction with the observed scan order -/
+def handleSpanner (c : Case) : String := Id.run do
+  match parseGraph c.body with
+  | none => return s!"diff {c.id} parse-graph"
+  | some (g, rest) =>
+    let some k := (c.args.getD 2 "").toNat? | return s!"diff {c.id} parse-k"
+    match findNats "scan" rest, findNats "retained" rest, findNats "dropped" rest, findNats "spn" rest with
+    | some scan, some retained, some dropped, some [spn] =>
+      if !(scanOkB g scan) then return s!"viol {c.id} scan-order-not-sorted-permutation"
+      let (R, D) := constructSpanner g k scan
+      if R != retained then return s!"diff {c.id} retained model=[{showNats R}] impl=[{showNats retained}]"
+      if D != dropped then return s!"diff {c.id} dropped model=[{showNats D}] impl=[{showNats dropped}]"
+      if spn != g.n then return s!"viol {c.id} spanner-vertex-count {spn}"
+      -- the spanner graph itself: endpoints and weights of its edges, in its own edge order
+      let spes := rest.filter (fun l => l.head? == some "spe")
+      let sp := spannerGraph g R
+      let modelSp := sp.edges.map fun (u, v, w) => s!"{u} {v} {w}"
+      let implSp := spes.map fun l => " ".intercalate l.tail
+      if modelSp != implSp then return s!"viol {c.id} spanner-edges model=[{modelSp}] impl=[{implSp}]"
+      return s!"ok {c.id} {g.n} {g.m} {k} {R.length} {D.length}"
+    | _, _, _, _ => return s!"diff {c.id} parse-spanner-lines"
+
+def approxVariantOf : String → Option Variant
+  | "signed" => some .signed
+  | "signed_tbb" => some .signedTbb
+  | "fvs" | "iso" | "fvs_tbb" | "iso_tbb" => some .trees
+  | _ => none
+
+/-- plain shortest-path distance in `g` restricted to the edge ids `R` -/
+def spDist (g : Graph) (R : List Nat) (a b : Nat) : Option Int :=
+  let sp := spannerGraph g R
+  (sgDijkstra (sgAdj sp []) a)[b]!
+
+/-- C05/C06: trace validation of an approximate run: spanner replay, exact phase on the spanner in the
+spanner's own ForestIndex coordinates, one shortest-path cycle per dropped edge -/
+def handleApprox (c : Case) : String := Id.run do
+  match parseGraph c.body with
+  | none => return s!"diff {c.id} parse-graph"
+  | some (g, rest) =>
+    let var := c.args.getD 2 ""
+    let some k := (c.args.getD 3 "").toNat? | return s!"diff {c.id} parse-k"
+    if k == 0 then
+      match findNats "throw" rest with
+      | some [0] => return s!"ok {c.id} {g.n} {g.m} 0 0 0 0 0 0"
+      | _ => return s!"viol {c.id} k=0-not-rejected-cleanly"
+    match approxVariantOf var, findNats "order" rest, findNats "scan" rest, findNats "retained" rest,
+          findNats "dropped" rest, parseCycles rest, findLine "ret" rest, findNats "foreign" rest with
+    | some v, some order, some scan, some retained, some dropped, some cycles, some (retS :: _), some [foreign] =>
+      let some ret := retS.toInt? | return s!"diff {c.id} parse-ret"
+      if foreign != 0 then return s!"viol {c.id} emits-{foreign}-descriptors-that-are-not-edges-of-the-callers-graph"
+      if !(scanOkB g scan) then return s!"viol {c.id} scan-order-not-sorted-permutation"
+      let (R, D) := constructSpanner g k scan
+      if R != retained || D != dropped then return s!"diff {c.id} spanner model=[{showNats R}|{showNats D}] impl=[{showNats retained}|{showNats dropped}]"
+      let sp := spannerGraph g R
+      let fi := createIndex sp order
+      if cycles.length != fi.dim + D.length then
+        return s!"viol {c.id} count emitted={cycles.length} spanner-dim={fi.dim} dropped={D.length}"
+      let exact := cycles.take fi.dim
+      let extra := cycles.drop fi.dim
+      -- exact phase: translate g ids -> spanner positions -> spanner forest index
+      let gI := reindex sp fi
+      let pos := fun (e : Nat) => indexOfNat R e
+      if exact.any (fun cyc => cyc.any (fun e => !(R.contains e))) then return s!"viol {c.id} spanner-phase-cycle-uses-non-spanner-edge"
+      let cycI := exact.map (fun cyc => setOf (cyc.map (fun e => fi.index.getD (pos e) 0)))
+      if (exact.zip cycI).any (fun (a, b) => a.length != b.length) then return s!"viol {c.id} repeated-edge-in-cycle"
+      let mut total : Int := 0
+      match validateRun c.id gI v fi.dim cycI with
+      | .error e => return e
+      | .ok (t, _, _, _) => total := t
+      -- one cycle per dropped edge (any order: the TBB variant appends concurrently)
+      let mut remaining := D
+      for cyc in extra do
+        match cyc.getLast? with
+        | none => return s!"viol {c.id} empty-edge-cycle"
+        | some e =>
+          if !(remaining.contains e) then return s!"diff {c.id} edge-cycle-for-unexpected-edge {e}"
+          remaining := remaining.erase e
+          let path := cyc.dropLast
+          if path.any (fun f => !(R.contains f)) then return s!"viol {c.id} path-uses-non-spanner-edge"
+          if !(isWalk g path (g.tgt e) (g.src e)) then return s!"viol {c.id} path-is-not-a-walk-between-the-endpoints-of {e}"
+          let pw := (path.map g.weight).sum
+          match spDist g R (g.src e) (g.tgt e) with
+          | some d => if pw != d then return s!"viol {c.id} path-not-shortest edge={e} weight={pw} dist={d}"
+          | none => return s!"diff {c.id} model-finds-no-spanner-path"
+          total := total + pw + g.weight e
+      if !remaining.isEmpty then return s!"viol {c.id} dropped-edges-without-cycle [{showNats remaining}]"
+      if total != ret then return s!"viol {c.id} ret returned={ret} emitted-weight={total}"
+      return s!"ok {c.id} {g.n} {g.m} {k} {fi.dim} {D.length} {total} 0 0"
+    | _, _, _, _, _, _, _, _ => return s!"diff {c.id} parse-approx-lines"
 
 end Parmcb.Driver
